@@ -19,6 +19,19 @@ fn out_json(r: Result<Vec<Value>, String>) -> Value {
 }
 
 /// option tuple from the input's configuration fields: mode 1.0/1.1 x use_rdf_type x rdf_direction x spaces
+/// an `io::Write` that takes at most seven bytes per call
+pub struct ShortWrites(pub std::rc::Rc<std::cell::RefCell<Vec<u8>>>);
+impl std::io::Write for ShortWrites {
+    fn write(&mut self, data: &[u8]) -> std::io::Result<usize> {
+        let n = data.len().min(7);
+        self.0.borrow_mut().extend_from_slice(&data[..n]);
+        Ok(n)
+    }
+    fn flush(&mut self) -> std::io::Result<()> {
+        Ok(())
+    }
+}
+
 pub fn run_jsonld(i: &Input) -> Value {
     let mode11 = i.pm % 2 == 0;
     let use_rdf_type = i.pm % 3 == 0;
@@ -39,7 +52,17 @@ pub fn run_jsonld(i: &Input) -> Value {
     let mut ev = describe(i);
     ev["ev"] = json!("RT");
     ev["opts"] = json!({"mode11":mode11,"use_rdf_type":use_rdf_type,"dir":dir,"spaces":spaces});
+    // every third dataset is written to a target that takes a few bytes per call (the contract of io::Write::write allows short writes)
+    let trickle = i.d.len() % 3 == 2;
+    ev["target"] = json!(if trickle { "short-writes" } else { "vec" });
     let text: Result<String, String> = guarded(|| {
+        if trickle {
+            let buf = std::rc::Rc::new(std::cell::RefCell::new(Vec::<u8>::new()));
+            let mut s = JsonLdSerializer::new_with_options(ShortWrites(buf.clone()), mk());
+            s.serialize_quads(i.d.iter().cloned().map(Ok::<_, std::convert::Infallible>)).map_err(|e| e.to_string())?;
+            let t = String::from_utf8_lossy(&buf.borrow()).to_string();
+            return Ok(t);
+        }
         let mut s = JsonLdSerializer::new_with_options(Vec::<u8>::new(), mk());
         s.serialize_quads(i.d.iter().cloned().map(Ok::<_, std::convert::Infallible>)).map_err(|e| e.to_string())?;
         Ok(String::from_utf8_lossy(s.as_utf8()).to_string())
@@ -97,6 +120,15 @@ pub fn run_xml(i: &Input) -> Value {
     let mut outs = vec![];
     for indent in 0..=8usize {
         let text: Result<String, String> = guarded(|| {
+            if indent % 3 == 1 {
+                // through a target that takes a few bytes per call
+                let buf = std::rc::Rc::new(std::cell::RefCell::new(Vec::<u8>::new()));
+                let mut s = RdfXmlSerializer::new_with_config(ShortWrites(buf.clone()), RdfXmlConfig::new().with_indentation(indent));
+                s.serialize_triples(i.d.iter().map(|q| q.0.clone()).map(Ok::<_, std::convert::Infallible>)).map_err(|e| e.to_string())?;
+                drop(s);
+                let t = String::from_utf8_lossy(&buf.borrow()).to_string();
+                return Ok(t);
+            }
             let mut s = RdfXmlSerializer::new_stringifier_with_config(RdfXmlConfig::new().with_indentation(indent));
             s.serialize_triples(i.d.iter().map(|q| q.0.clone()).map(Ok::<_, std::convert::Infallible>)).map_err(|e| e.to_string())?;
             Ok(String::from_utf8_lossy(s.as_utf8()).to_string())
